@@ -6,6 +6,7 @@ Data: `JediVerif/Gen/Layout.lean`, regenerated from the repository's working tre
 
 * `cfg64` — default flags: 64-bit words, `unsigned __int128` double words;
 * `cfg32` — `-U__SIZEOF_INT128__` (C++ side also `-DDISABLE_ASM`): 32-bit words, 64-bit double words;
+* `cfg64p` — `-DDISABLE_ASM` on both sides: portable build with 64-bit words;
 
 the translator compiles a C program (gcc -std=c11, only the four `.h` files) and a C++ program
 (g++ -std=c++17, only the `.hpp` files) and records `sizeof`, alignment, and the offset and size
@@ -33,6 +34,10 @@ theorem layout_equal_cfg64 : c_cfg64 = cpp_cfg64 := by decide
 /-- cfg32: the same with 32-bit words (no `__int128`). -/
 theorem layout_equal_cfg32 : c_cfg32 = cpp_cfg32 := by decide
 
+/-- cfg64p: the portable build with 64-bit words (`-DDISABLE_ASM` on both sides; the C headers must select the same word types
+as the C++ templates whether or not the assembly is disabled). -/
+theorem layout_equal_cfg64p : c_cfg64p = cpp_cfg64p := by decide
+
 /-- name of a row of the layout tables -/
 def rowName (p : String × String) : String := p.1 ++ " = " ++ p.2
 
@@ -40,6 +45,7 @@ def rowName (p : String × String) : String := p.1 ++ " = " ++ p.2
 about every pairing, and about nothing else). -/
 theorem rows_are_pairing_cfg64 : c_cfg64.map (·.name) = pairing.map rowName := by decide
 theorem rows_are_pairing_cfg32 : c_cfg32.map (·.name) = pairing.map rowName := by decide
+theorem rows_are_pairing_cfg64p : c_cfg64p.map (·.name) = pairing.map rowName := by decide
 
 /-- Every struct declared in a C header occurs in the pairing table (a struct added to a header
 without a C++ partner makes the translator fail; this restates it over the emitted data). -/
@@ -68,6 +74,7 @@ theorem coeffs_len_cfg32 : coeffs_len_c = num_coeffs_cpp_cfg32 := by decide
 from `bls12_381.cpp`) equal `sizeof` of the `Encoding<…>` overlays / of `Fq12`. -/
 theorem sizes_equal_cfg64 : sizes_c_cfg64 = sizes_cpp_cfg64 := by decide
 theorem sizes_equal_cfg32 : sizes_c_cfg32 = sizes_cpp_cfg32 := by decide
+theorem sizes_equal_cfg64p : sizes_c_cfg64p = sizes_cpp_cfg64p := by decide
 
 /-- The marshalled sizes do not depend on the word size. -/
 theorem sizes_config_independent : sizes_c_cfg64 = sizes_c_cfg32 := by decide
@@ -75,6 +82,9 @@ theorem sizes_config_independent : sizes_c_cfg64 = sizes_c_cfg32 := by decide
 /-- The word / double-word typedefs of `core.h` have the sizes of `BigInt<…>::word_t / dword_t`. -/
 theorem word_typedefs_agree_cfg64 : word_sizes_c_cfg64 = word_sizes_cpp_cfg64 := by decide
 theorem word_typedefs_agree_cfg32 : word_sizes_c_cfg32 = word_sizes_cpp_cfg32 := by decide
+theorem word_typedefs_agree_cfg64p : word_sizes_c_cfg64p = word_sizes_cpp_cfg64p := by decide
+/-- disabling the assembly does not change the C view: the portable 64-bit build has the layout of the default build. -/
+theorem layout_asm_independent : c_cfg64p = c_cfg64 ∧ cpp_cfg64p = cpp_cfg64 := by decide
 
 /-! ### Overlay structs (input to C17)
 
@@ -91,6 +101,7 @@ layout that assumes a 4-aligned buffer).  What holds is stated precisely instead
 before the repair of `FreeSlotMarshalled`, whose `uint32_t idx` gave it alignment 4). -/
 theorem overlay_alignment_cfg64 : ∀ r ∈ overlays_cfg64, r.align = 1 := by decide
 theorem overlay_alignment_cfg32 : ∀ r ∈ overlays_cfg32, r.align = 1 := by decide
+theorem overlay_alignment_cfg64p : ∀ r ∈ overlays_cfg64p, r.align = 1 := by decide
 
 /-- The overlay layouts do not depend on the word size. -/
 theorem overlays_config_independent : overlays_cfg64 = overlays_cfg32 := by decide
